@@ -57,7 +57,7 @@ def project_tree(e):
     if isinstance(e, ex.Statement):
         return project_tree(e.expression)
     if isinstance(e, ex.Wrap):
-        return project_tree(e.args[0])
+        return project_tree(e.expr)
     if isinstance(e, ex.Function):
         return (type(e).__name__, e.name, tuple(project_tree(a) for a in e.args))
     if isinstance(e, ex.GetContextValue):
